@@ -7,9 +7,9 @@ KEYWORD_TYPES = ["Context", "Action", "Outcome", "Conjunction", "Unknown"]
 KW_FOR_TYPE = {"Context": "Given ", "Action": "When ", "Outcome": "Then ", "Conjunction": "And ", "Unknown": "* "}
 
 DEFAULT = dict(
-    name=st.sampled_from(["s", "n <a>", "", "<b> and <a>", "x<c>y", "<A> <a>", "<B>", "menu -> <a> opens", "<a> ", " <b>", "a > b < <a>"]),
+    name=st.sampled_from(["s", "n <a>", "", "<b> and <a>", "x<c>y", "<A> <a>", "<B>", "menu -> <a> opens", "<a> ", " <b>", "a > b < <a>", "<a>", "<a><b>", "<b>"]),
     step_text=st.sampled_from(["t", "<a> t <b>", "<c>", "", "<a><a>", "no placeholder", "<A> vs <a>", "x -> <b>", "> <a> <"]),
-    cell=st.sampled_from(["x", "<a>", "<b> <a>", "a.b", "", "<a><a>", "\\", "$1", "v", "a|b", "a", "b", "b|c", "|", "C:\\temp\\new", "\\g<0>", "\\1"]),
+    cell=st.sampled_from(["x", "<a>", "<b> <a>", "a.b", "", "<a><a>", "\\", "$1", "v", "a|b", "a", "b", "b|c", "|", "C:\\temp\\new", "\\g<0>", "\\1", "\\\"\\\"\\\"", "\\`\\`\\`", "\"\"\"", "140", "40", "9"]),
     header=st.sampled_from(["a", "b", "c", "a b", "A", "a"]),
     content=st.sampled_from(["", "<a>\n<b>", "c", "line1\n  line2\n"]),
     media=st.sampled_from(["<a>", "m", "text/<b>"]),
